@@ -146,6 +146,7 @@ func mainSched() {
 			mc.SchedHook()
 		}
 	})
+	mc.SchedCheckGoroutine = secp256k1.VerifRTHasGo()
 	secp256k1.VerifRTSetBlocked(func() {
 		if mc.SchedBlockedHook != nil {
 			mc.SchedBlockedHook()
